@@ -246,6 +246,14 @@ func (tm *Termer) of(v ssa.Value) *Term {
 		return tm.Of(v.X)
 	case *ssa.UnOp:
 		if v.Op == token.MUL {
+			// a variable captured by a closure lives in a cell with several stores: the
+			// store that reaches this load along a straight (single-predecessor) chain is
+			// the value read
+			if al, ok := v.X.(*ssa.Alloc); ok {
+				if st := reachingStore(v, al); st != nil {
+					return tm.Of(st.Val)
+				}
+			}
 			return tm.load(v.X)
 		}
 		return &Term{Op: "un", Name: v.Op.String(), Args: []*Term{tm.Of(v.X)}}
